@@ -33,6 +33,17 @@ def gen_case(rng):
             if rng.random() < 0.6:
                 steps.append(["lib"])
             scripts[t["id"]] = {"steps": steps}
+    if rng.random() < 0.15:
+        # type twins: argument lists / option values that compare (and hash) equal across tasks of one invocation but
+        # differ in type, so they render differently: [1, 0] / [True, False] / [1.0, 0.0]
+        base = [rng.choice([0, 1]) for _ in range(rng.randint(1, 3))]
+        conv = {"int": int, "bool": bool, "float": float}
+        for t in tasks:
+            if t["kind"] in gen.PROC_KINDS:
+                c = conv[rng.choice(sorted(conv))]
+                t["args"] = [c(v) for v in base]
+                c2 = conv[rng.choice(sorted(conv))]
+                t["options"] = {"k": c2(base[0])} if rng.random() < 0.7 else {}
     ids = [t["id"] for t in tasks]
     hist = []
     for k in range(rng.choice([1, 2, 2, 3])):
